@@ -163,6 +163,22 @@ impl NameMap {
                 all_source_names.insert(name.clone());
             }
         }
+        // The same goes for names which are not in the scope tables - members, enum values and local variables
+        for def in &module.struct_registry {
+            for member in &def.members {
+                all_source_names.insert(member.name.clone());
+            }
+        }
+        for i in 0..module.enum_registry.get_enum_count() {
+            for value_id in module.enum_registry.get_values(EnumId(i)) {
+                let value_name = &module.enum_registry.get_enum_value(*value_id).name;
+                all_source_names.insert(value_name.to_string());
+            }
+        }
+        for id in module.variable_registry.iter() {
+            let name = &module.variable_registry.get_local_variable(id).name.node;
+            all_source_names.insert(name.clone());
+        }
 
         for scope in &scopes {
             // Record used names within the current scope
@@ -248,6 +264,7 @@ impl NameMap {
                     let candidate = format!("{}_{}", name, counter);
 
                     if !all_local_names.contains(&candidate)
+                        && !all_source_names.contains(&candidate)
                         && used_names_all_scopes.insert(candidate.clone())
                     {
                         break candidate;
@@ -295,16 +312,21 @@ impl NameMap {
         }
 
         for def in &module.struct_registry {
-            let mut siblings = HashSet::new();
-            for member in &def.members {
-                siblings.insert(member.name.as_str());
+            // A replacement name has to avoid every name from the source and every generated name
+            // Methods see members, parameters, local variables and global names at the same time
+            let mut avoided = all_source_names.clone();
+            for name in &used_names_all_scopes {
+                avoided.insert(name.clone());
             }
-            for method in &def.methods {
-                siblings.insert(module.function_registry.get_function_name(*method));
+
+            let mut siblings = HashSet::new();
+            for name in &avoided {
+                siblings.insert(name.as_str());
             }
 
             for (index, member) in def.members.iter().enumerate() {
                 if let Some(name) = pick_member_name(&member.name, &siblings, &reserved_name_set) {
+                    used_names_all_scopes.insert(name.clone());
                     name_map.member_names.insert((def.id, index as u32), name);
                 }
             }
@@ -313,14 +335,25 @@ impl NameMap {
         for i in 0..module.enum_registry.get_enum_count() {
             let values = module.enum_registry.get_values(EnumId(i));
 
+            // Enum values are also visible in the scope that contains the enum
+            // A replacement name has to avoid the names of that scope - from the source or generated
+            let mut avoided = all_source_names.clone();
+            for name in &used_names_all_scopes {
+                avoided.insert(name.clone());
+            }
+
             let mut siblings = HashSet::new();
             for value_id in values {
                 siblings.insert(module.enum_registry.get_enum_value(*value_id).name.as_str());
+            }
+            for name in &avoided {
+                siblings.insert(name.as_str());
             }
 
             for value_id in values {
                 let name = &module.enum_registry.get_enum_value(*value_id).name;
                 if let Some(name) = pick_member_name(name, &siblings, &reserved_name_set) {
+                    used_names_all_scopes.insert(name.clone());
                     name_map.enum_value_names.insert(*value_id, name);
                 }
             }
